@@ -284,7 +284,7 @@ def aliasId (p1 p2 : String) : String := "__alias_" ++ p2 ++ "_to_" ++ p1
 def stripNs (pre name : String) : String :=
   if startsWith name pre then String.ofList (name.toList.drop pre.length) else name
 
-/-! ## Queries (AbstractParameterAliasable.cpp:212-250, 288-302) -/
+/-! ## Queries (AbstractParameterAliasable.cpp:229-269, 307-321) -/
 
 /-- `AliasParameterListener::getAlias()`: `(*pl_)[alias_].getName()` -/
 def lisAlias (w : World) (L : Lis) : Except Err String :=
@@ -295,7 +295,7 @@ def lisAlias (w : World) (L : Lis) : Except Err String :=
     | none => .error .ub
     | some t => .ok (nameOf w.heap t)
 
-/-- `getFrom(name)` (288-302): `from_` of the first registered listener whose `name_` is `name` -/
+/-- `getFrom(name)` (307-321): `from_` of the first registered listener whose `name_` is `name` -/
 def getFrom (w : World) (o : Obj) (name : String) : String :=
   match o.reg.find? (fun e => (w.lis e.2).name == name) with
   | some e => (w.lis e.2).src
@@ -424,7 +424,7 @@ def aliasPairG (repaired : Bool) (w : World) (k : Nat) (p1 p2 : String) : WR :=
 
 def aliasPair (w : World) (k : Nat) (p1 p2 : String) : WR := aliasPairG true w k p1 p2
 
-/-! ## `unaliasParameters(p1, p2)` (AbstractParameterAliasable.cpp:179-195) -/
+/-! ## `unaliasParameters(p1, p2)` (AbstractParameterAliasable.cpp:193-209) -/
 
 def unalias (w : World) (k : Nat) (p1 p2 : String) : WR :=
   match w.objs k with
@@ -539,7 +539,7 @@ def bulkAliasG (repaired : Bool) (w : World) (k : Nat) (entries : List (String Ã
 
 def bulkAlias (w : World) (k : Nat) (entries : List (String Ã— String)) : WR := bulkAliasG true w k entries
 
-/-! ## `setNamespace(prefix)` (AbstractParameterAliasable.cpp:197-213, AbstractParametrizable.cpp:10-27) -/
+/-! ## `setNamespace(prefix)` (AbstractParameterAliasable.cpp:211-227, AbstractParametrizable.cpp:10-27) -/
 
 def renamed (oldPre newPre cur : String) : String :=
   if startsWith cur oldPre then newPre ++ String.ofList (cur.toList.drop oldPre.length) else newPre ++ cur
